@@ -71,6 +71,12 @@ pub open spec fn kind_of(c: NodeContent) -> NodeKind { match c { NodeContent::Wo
 pub open spec fn key_of(n: Node) -> Seq<char> { match n.content { NodeContent::Act(a) => if a.key@.len() == 0 { n.id@ } else { a.key@ }, _ => n.id@ } }
 pub open spec fn uses_of(n: Node) -> Seq<char> { match n.content { NodeContent::Act(a) => a.uses@, _ => Seq::<char>::empty() } }
 impl NodeContent {
+//@@ extract file=acts/src/scheduler/tree/node.rs in="impl NodeContent" item="fn id" name=NodeContent::id
+//@@ rw R7 `data . id . clone ( )` => `clone_string(&data.id)`
+//@@ rw R7 `data . id . to_string ( )` => `clone_string(&data.id)`
+//@@ spec
+    ensures ret@ == content_id(*self)
+//@@ end
 //@@ extract file=acts/src/scheduler/tree/node.rs in="impl NodeContent" item="fn name" name=NodeContent::name
 //@@ rw R7 `data . name . clone ( )` => `clone_string(&data.name)`
 //@@ rw R7 `data . name . to_string ( )` => `clone_string(&data.name)`
